@@ -6,6 +6,7 @@
 
 #include "Z/Impedance.hpp"
 
+#include <algorithm>
 #include <fstream>
 #include <iostream>
 #include <limits>
@@ -66,7 +67,10 @@ vfps::Impedance &vfps::Impedance::operator=(vfps::Impedance other)
 
 vfps::Impedance &vfps::Impedance::operator+=(const vfps::Impedance &rhs)
 {
-    for (size_t i=0; i<_nfreqs; i++) {
+    // a shorter right-hand side (e.g. an impedance file that lists fewer
+    // harmonics than are used) contributes nothing beyond its last sample
+    const size_t nsum = std::min(_nfreqs,rhs._nfreqs);
+    for (size_t i=0; i<nsum; i++) {
         _data[i] += rhs._data[i];
     }
     #if INOVESA_USE_OPENCL == 1
